@@ -131,8 +131,8 @@ Theorem c05_constructors : forall c, All c (init c).
 Proof. exact All_init. Qed.
 
 (* ------------------------------------------------------------------ non-vacuity *)
-Definition cfg_new1 := {| how := CNew; max0 := 1; ptmo := TNone |}.
-Definition cfg_iter2 := {| how := CIter; max0 := 2; ptmo := TNone |}.
+Definition cfg_new1 := {| how := CNew; max0 := 1; ptmo := TNone; rt := false |}.
+Definition cfg_iter2 := {| how := CIter; max0 := 2; ptmo := TNone; rt := false |}.
 
 (* new(1): try_add(0) succeeds, add(1) parks on the full pool, try_add(2) reports Timeout and
    gets 2 back, try_remove frees the slot and serves the parked adder *)
